@@ -7,6 +7,7 @@
 #include "vpch.h"
 #include "vcommon.h"
 #include "tsshapes.h"
+#include <hgraph/types/context_wiring.h>
 using namespace hgraph;
 using namespace tsshapes;
 
@@ -95,6 +96,19 @@ namespace
         static void compose(Wiring &w, Port<TS<Int>> a, Port<TS<Int>> b, Scalar<"id", Int> id) { wire<Log2>(w, wire<Bump>(w, a), wire<Bump>(w, b), id); }
     };
 
+    // the same, but the two leaves reach the child as CAPTURED outer ports (contexts), not as arguments
+    struct BothLeavesCaptured
+    {
+        static constexpr auto name = "c06p_both_leaves_captured";
+        static void compose(Wiring &w, Port<TS<Int>> trigger, Scalar<"id", Int> id)
+        {
+            (void)trigger;
+            auto lo = context::get<TS<Int>>(w, "c06p_lo");
+            auto hi = context::get<TS<Int>>(w, "c06p_hi");
+            wire<Log2>(w, wire<Bump>(w, lo), wire<Bump>(w, hi), id);
+        }
+    };
+
     // consumer spec: <kind><form>  kind: o ordinary output, r recordable state;  form: w whole structure, a leaf a / element 0, b leaf b / element 1
     struct Outcome { std::optional<std::string> violation; std::string sig; };
 
@@ -124,6 +138,13 @@ namespace
                 else { late.push_back(Late{delayed_binding<S>(w), spec[0]}); p = late.back().port(); }
                 if (spec[1] == 'w') wire<ReadWhole>(w, p, Int{id});
                 else if (spec[1] == 'n') nested_<BothLeaves>(w, leaf(p, 'a'), leaf(p, 'b'), Int{id});
+                else if (spec[1] == 'c')
+                {
+                    auto la = leaf(p, 'a'), lb = leaf(p, 'b');
+                    context::scope<"c06p_lo"> c_lo{w, la};
+                    context::scope<"c06p_hi"> c_hi{w, lb};
+                    nested_<BothLeavesCaptured>(w, la, Int{id});
+                }
                 else wire<ReadLeaf>(w, leaf(p, spec[1]), Int{id});
             };
             for (int st : order)
@@ -170,7 +191,7 @@ namespace
                 const Pair2 &p = (*spec)[0] == 'o' ? o : r;
                 const bool ta = (*spec)[0] == 'o' ? oa : ra, tb = (*spec)[0] == 'o' ? ob : rb;
                 if ((*spec)[1] == 'w') want[id].emplace_back(static_cast<long>(c), opt(p.va, p.a) + "/" + opt(p.vb, p.b));
-                else if ((*spec)[1] == 'n') { if (ta || tb) want[id].emplace_back(static_cast<long>(c), opt(p.va, p.a + 1) + "/" + opt(p.vb, p.b + 1)); }
+                else if ((*spec)[1] == 'n' || (*spec)[1] == 'c') { if (ta || tb) want[id].emplace_back(static_cast<long>(c), opt(p.va, p.a + 1) + "/" + opt(p.vb, p.b + 1)); }
                 else if ((*spec)[1] == 'a' && ta) want[id].emplace_back(static_cast<long>(c), std::to_string(p.a));
                 else if ((*spec)[1] == 'b' && tb) want[id].emplace_back(static_cast<long>(c), std::to_string(p.b));
             }
@@ -206,7 +227,7 @@ std::optional<std::string> verif_run_case(verif::Ctx &, const std::string &desc)
 void verif_enumerate(verif::Ctx &ctx)
 {
     const bool th = ctx.thorough();
-    const std::vector<std::string> consumers = {"ow", "oa", "ob", "on", "rw", "ra", "rb", "rn"};
+    const std::vector<std::string> consumers = {"ow", "oa", "ob", "on", "oc", "rw", "ra", "rb", "rn", "rc"};
     std::vector<std::vector<std::string>> scripts;
     {
         // every history over T cycles of {no tick, odd value, even value}
